@@ -91,7 +91,8 @@ seq_t dtw_distance(seq_t *s1, idx_t l1,
     idx_t dl;
     // DTWPruned
     idx_t sc = 0;
-    idx_t ec = 0;
+    // The border row is zero up to psi_2b: pruning cannot stop a row before that column
+    idx_t ec = settings->psi_2b;
     bool smaller_found;
     idx_t ec_next;
     // signal(SIGINT, dtw_int_handler); // not compatible with OMP
@@ -200,6 +201,10 @@ seq_t dtw_distance(seq_t *s1, idx_t l1,
         // }
         skip = skip * (length != l2 + 1);
         // PrunedDTW
+        if (i <= settings->psi_1b) {
+            // A path can still start in the (zero) border column
+            sc = 0;
+        }
         if (sc > maxj) {
             #ifdef DTWDEBUG
             printf("correct maxj to sc: %zu -> %zu (saved %zu computations)\n", maxj, sc, sc-maxj);
@@ -326,7 +331,8 @@ seq_t dtw_distance_ndim(seq_t *s1, idx_t l1,
     idx_t dl;
     // DTWPruned
     idx_t sc = 0;
-    idx_t ec = 0;
+    // The border row is zero up to psi_2b: pruning cannot stop a row before that column
+    idx_t ec = settings->psi_2b;
     bool smaller_found;
     idx_t ec_next;
     // signal(SIGINT, dtw_int_handler); // not compatible with OMP
@@ -438,6 +444,10 @@ seq_t dtw_distance_ndim(seq_t *s1, idx_t l1,
         // }
         skip = skip * (length != l2 + 1);
         // PrunedDTW
+        if (i <= settings->psi_1b) {
+            // A path can still start in the (zero) border column
+            sc = 0;
+        }
         if (sc > maxj) {
             #ifdef DTWDEBUG
             printf("correct maxj to sc: %zu -> %zu (saved %zu computations)\n", maxj, sc, sc-maxj);
@@ -564,7 +574,8 @@ seq_t dtw_distance_euclidean(seq_t *s1, idx_t l1,
     idx_t dl;
     // DTWPruned
     idx_t sc = 0;
-    idx_t ec = 0;
+    // The border row is zero up to psi_2b: pruning cannot stop a row before that column
+    idx_t ec = settings->psi_2b;
     bool smaller_found;
     idx_t ec_next;
     // signal(SIGINT, dtw_int_handler); // not compatible with OMP
@@ -667,6 +678,10 @@ seq_t dtw_distance_euclidean(seq_t *s1, idx_t l1,
         // }
         skip = skip * (length != l2 + 1);
         // PrunedDTW
+        if (i <= settings->psi_1b) {
+            // A path can still start in the (zero) border column
+            sc = 0;
+        }
         if (sc > maxj) {
             #ifdef DTWDEBUG
             printf("correct maxj to sc: %zu -> %zu (saved %zu computations)\n", maxj, sc, sc-maxj);
@@ -790,7 +805,8 @@ seq_t dtw_distance_ndim_euclidean(seq_t *s1, idx_t l1,
     idx_t dl;
     // DTWPruned
     idx_t sc = 0;
-    idx_t ec = 0;
+    // The border row is zero up to psi_2b: pruning cannot stop a row before that column
+    idx_t ec = settings->psi_2b;
     bool smaller_found;
     idx_t ec_next;
     // signal(SIGINT, dtw_int_handler); // not compatible with OMP
@@ -896,6 +912,10 @@ seq_t dtw_distance_ndim_euclidean(seq_t *s1, idx_t l1,
         // }
         skip = skip * (length != l2 + 1);
         // PrunedDTW
+        if (i <= settings->psi_1b) {
+            // A path can still start in the (zero) border column
+            sc = 0;
+        }
         if (sc > maxj) {
             #ifdef DTWDEBUG
             printf("correct maxj to sc: %zu -> %zu (saved %zu computations)\n", maxj, sc, sc-maxj);
@@ -1048,7 +1068,8 @@ seq_t dtw_warping_paths_ndim(seq_t *wps,
     }
     // DTWPruned
     idx_t sc = 0;
-    idx_t ec = 0;
+    // The border row is zero up to psi_2b: pruning cannot stop a row before that column
+    idx_t ec = settings->psi_2b;
     idx_t ec_next;
     bool smaller_found;
 
@@ -1112,6 +1133,7 @@ seq_t dtw_warping_paths_ndim(seq_t *wps,
         ci = min_ci;
         wpsi = 1; // index for min_ci
         // PrunedDTW
+        if (ri <= settings->psi_1b) { sc = 0; }  // A path can still start in the (zero) border column
         if (sc <= min_ci) {} else {
             for (; ci<sc; ci++) {
                 wps[ri_width + wpsi] = INFINITY;
@@ -1162,6 +1184,7 @@ seq_t dtw_warping_paths_ndim(seq_t *wps,
         wpsi = 1;
         ci = min_ci;
         // PrunedDTW
+        if (ri <= settings->psi_1b) { sc = 0; }  // A path can still start in the (zero) border column
         if (sc <= min_ci) {} else {
             for (; ci<sc; ci++) {
                 wps[ri_width + wpsi] = INFINITY;
@@ -1212,6 +1235,7 @@ seq_t dtw_warping_paths_ndim(seq_t *wps,
         wps[ri_width] = INFINITY;
         wpsi = 1;
         // PrunedDTW
+        if (ri <= settings->psi_1b) { sc = 0; }  // A path can still start in the (zero) border column
         if (sc <= min_ci) {} else {
             for (; ci<sc; ci++) {
                 wps[ri_width + wpsi] = INFINITY;
@@ -1272,6 +1296,7 @@ seq_t dtw_warping_paths_ndim(seq_t *wps,
             wps[i] = INFINITY;
         }
         // PrunedDTW
+        if (ri <= settings->psi_1b) { sc = 0; }  // A path can still start in the (zero) border column
         if (sc <= min_ci) {} else {
             for (; ci<sc; ci++) {
                 wps[ri_width + wpsi] = INFINITY;
@@ -1427,7 +1452,8 @@ seq_t dtw_warping_paths_ndim_euclidean(seq_t *wps,
                         DTWSettings *settings) {
     // DTWPruned
     idx_t sc = 0;
-    idx_t ec = 0;
+    // The border row is zero up to psi_2b: pruning cannot stop a row before that column
+    idx_t ec = settings->psi_2b;
     idx_t ec_next;
     bool smaller_found;
 
@@ -1486,6 +1512,7 @@ seq_t dtw_warping_paths_ndim_euclidean(seq_t *wps,
         ci = min_ci;
         wpsi = 1; // index for min_ci
         // PrunedDTW
+        if (ri <= settings->psi_1b) { sc = 0; }  // A path can still start in the (zero) border column
         if (sc <= min_ci) {} else {
             for (; ci<sc; ci++) {
                 wps[ri_width + wpsi] = INFINITY;
@@ -1537,6 +1564,7 @@ seq_t dtw_warping_paths_ndim_euclidean(seq_t *wps,
         wpsi = 1;
         ci = min_ci;
         // PrunedDTW
+        if (ri <= settings->psi_1b) { sc = 0; }  // A path can still start in the (zero) border column
         if (sc <= min_ci) {} else {
             for (; ci<sc; ci++) {
                 wps[ri_width + wpsi] = INFINITY;
@@ -1588,6 +1616,7 @@ seq_t dtw_warping_paths_ndim_euclidean(seq_t *wps,
         wps[ri_width] = INFINITY;
         wpsi = 1;
         // PrunedDTW
+        if (ri <= settings->psi_1b) { sc = 0; }  // A path can still start in the (zero) border column
         if (sc <= min_ci) {} else {
             for (; ci<sc; ci++) {
                 wps[ri_width + wpsi] = INFINITY;
@@ -1649,6 +1678,7 @@ seq_t dtw_warping_paths_ndim_euclidean(seq_t *wps,
             wps[i] = INFINITY;
         }
         // PrunedDTW
+        if (ri <= settings->psi_1b) { sc = 0; }  // A path can still start in the (zero) border column
         if (sc <= min_ci) {} else {
             for (; ci<sc; ci++) {
                 wps[ri_width + wpsi] = INFINITY;
